@@ -98,8 +98,13 @@ SRefs(d) == { d.refs[x] : x \in 1..Len(d.refs) }
 \* everything a module's own declarations mention is visible in it
 WellSplit(r) == \A d \in SDecls(r) : SRefs(d) \subseteq SVisible(r, d.m)
 \* shapes of known findings
+\* what travels with an import of d: the definition of a constant / structure, the SIGNATURE of a function
+Travels(d) == IF d.cont THEN SRefs(d) ELSE { d.sig[x] : x \in 1..Len(d.sig) }
 Leaky(r) == \E m \in 1..r.nmods : \E d \in SDecls(r) :
-                d.pub /\ d.cont /\ d.m # m /\ d.m \in SImports(r, m) /\ ~(SRefs(d) \subseteq SVisible(r, m))
+                d.pub /\ d.m # m /\ d.m \in SImports(r, m) /\ ~(Travels(d) \subseteq SVisible(r, m))
+\* two files declare PRIVATE structures / words of the same name (each with a layout of its own)
+SameNamedPrivateStructures(r) == \E d, e \in SDecls(r) :
+                d.k = "struct" /\ e.k = "struct" /\ d.m # e.m /\ ~d.pub /\ ~e.pub /\ d.src = e.src
 \* a public structure with a member of structure / word type that some other module imports
 ImportedNestedStructure(r) == \E d \in SDecls(r) :
                 /\ d.pub /\ d.k = "struct"
@@ -116,7 +121,8 @@ TSplit == /\ Ev("split") /\ tphase = "idle"
                   PrintT(<<"BAD", ToJson([ev |-> "split", prog |-> r.prog, seed |-> r.seed, closed |-> r.closed, nmods |-> r.nmods,
                                           problems |-> SetToSeq(problems),
                                           tags |-> SetToSeq((IF Leaky(r) THEN {"pub-definition-needs-invisible"} ELSE {})
-                                                            \cup (IF ImportedNestedStructure(r) THEN {"imported-nested-structure"} ELSE {})),
+                                                            \cup (IF ImportedNestedStructure(r) THEN {"imported-nested-structure"} ELSE {})
+                                                            \cup (IF SameNamedPrivateStructures(r) THEN {"same-named-private-structures"} ELSE {})),
                                           badruns |-> [x \in 1..Len(r.runs) |-> IF x \in bad THEN r.runs[x] ELSE [order |-> r.runs[x].order]]])>>)
           /\ l' = l + 1 /\ UNCHANGED <<tphase, taken, mods, cur, todo, phase>>
 \* histories: the result for a module does not depend on unrelated modules compiled before it
